@@ -78,12 +78,12 @@ class Seam:
         self.failed = False
         self.checkpoints = 0
 
-    def checkpoint(self, kind):
+    def checkpoint(self, kind, what=None):
         """A point at which the operation in progress can be pre-empted by
         complete operations of other actors (decided by the op)."""
         if self.on_checkpoint is not None:
             self.checkpoints += 1
-            self.on_checkpoint(self.checkpoints, kind)
+            self.on_checkpoint(self.checkpoints, kind, what)
 
     def end(self):
         self.crash_at = None
@@ -128,9 +128,19 @@ _MUTATORS = ('symlink', 'unlink', 'remove', 'rename', 'replace', 'mkdir',
 class SeamOS:
     """Stands in for the `os` module inside one module under test."""
 
-    def __init__(self, seam, overrides=None, stat_checkpoint=False):
+    def __init__(self, seam, overrides=None, stat_checkpoint=False,
+                 unlink_checkpoint=False):
         self._seam = seam
         self._overrides = dict(overrides or {})
+        if unlink_checkpoint:
+            # the window between the stat() that found an entry ownerless and
+            # the unlink() that reclaims it (only counted while a scan is in
+            # progress: Seam.on_checkpoint is set by the harness then)
+            def unlink(path, *args, **kwargs):
+                seam.checkpoint('unlink', _real_os.path.basename(path))
+                seam.tick('fs:unlink', _short((path,)))
+                return _real_os.unlink(path, *args, **kwargs)
+            self._overrides['unlink'] = unlink
         if stat_checkpoint:
             # the per-entry stat() of a scan loop is a pre-emption point
             def stat(path, *args, **kwargs):
